@@ -1165,6 +1165,24 @@ pub fn run_c07(ctx: &Ctx) -> Report {
         let mut proto: Vec<V> = Vec::new();
         for c in 0..nc {
             let (ct, fl, v) = gen_natural(rng, big);
+            // a third of the columns carry flags that say nothing about how a value is encoded (a
+            // backend may set ZEROFILL without UNSIGNED, key and default flags, ...): the cells and the
+            // definition the client receives still agree
+            let fl = if rng.chance(1, 3) {
+                rep.counters.inc("columns_with_flags_that_do_not_concern_the_encoding");
+                fl | *rng.pick(&[
+                    ColumnFlags::ZEROFILL_FLAG,
+                    ColumnFlags::PRI_KEY_FLAG | ColumnFlags::AUTO_INCREMENT_FLAG,
+                    ColumnFlags::UNIQUE_KEY_FLAG,
+                    ColumnFlags::MULTIPLE_KEY_FLAG | ColumnFlags::ZEROFILL_FLAG,
+                    ColumnFlags::TIMESTAMP_FLAG | ColumnFlags::ON_UPDATE_NOW_FLAG,
+                    ColumnFlags::NUM_FLAG,
+                    ColumnFlags::PART_KEY_FLAG,
+                    ColumnFlags::NO_DEFAULT_VALUE_FLAG,
+                ])
+            } else {
+                fl
+            };
             cols.push(Column { table: "t".into(), column: format!("c{}", c), coltype: ct, colflags: fl });
             gens.push((ct, fl));
             proto.push(v);
